@@ -148,6 +148,8 @@ def o_chunked(case):
     n = len(encoded)
     mode = case["mode"]
     cls = set([f"enc-{case['enc']}", mode])
+    if case["enc"] != "none" and any(c == "" for c in case["chunks"]):
+        cls.add("compressed-chunk-with-empty-body")
     digs = []
     evals = 0
     if mode == "all_partitions":
@@ -223,6 +225,10 @@ def s_chunked(draw, tier):
             chunks = chunks[:2]
     else:
         chunks = draw(st.lists(_DATA, min_size=0, max_size=6))
+    if enc != "none" and chunks and draw(st.integers(0, 2)) == 0:
+        # a compressed chunk may be non-empty on the wire and still decode to nothing
+        k = draw(st.integers(0, len(chunks) - 1))
+        chunks = chunks[:k] + [b""] + chunks[k:]
     case = {
         "chunks": [c.hex() for c in chunks],
         "enc": enc,
